@@ -84,6 +84,30 @@ def run_names(unit):
         rec('no parameter accepted by a simulator class is missing from the request schema [region: the recorded list of names]', False,
             {'missing (recorded)': [n for n in missing if n in known_missing]}, finding='C19-schema-misses-unenumerated-sources')
     rec('the request schema lists no parameter that no simulator class accepts', not extra, {'extra': extra[:20]})
+    # names a reader looks up in the input although no parameter carries them (aliases moved onto a parameter before reading): accepted, so they
+    # belong in the schema.  Recorded by running every real read_parameters on a dictionary that logs the keys it is asked for.
+    try:
+        asked = {}
+        for modn, clsn in gx.SOURCE_CLASSES:
+            objx, modelx, _ = gx.make_source(modn, clsn)
+            rec_d = _RecordingDict({'Print Output to Console': P.ParameterEntry(Name='Print Output to Console', sValue='0', raw_entry='Print Output to Console, 0')})
+            modelx.InputParameters = rec_d
+            try:
+                with contextlib.redirect_stdout(io.StringIO()):
+                    objx.read_parameters(modelx)
+            except Exception:
+                pass
+            for kx in rec_d.asked:
+                asked.setdefault(kx, set()).add(clsn)
+        aliases = sorted(k for k in asked if isinstance(k, str) and k not in accepted and k not in schema_names and not k.startswith('Units:'))
+        new_alias = [a for a in aliases if a not in KNOWN_ALIASES]
+        rec('no reader accepts an input name that the request schema does not list (aliases looked up by name)', not new_alias,
+            {'names looked up by a reader, carried by no parameter and absent from the schema': new_alias[:10], 'looked up by': {a: sorted(asked[a]) for a in new_alias[:5]}})
+        if [a for a in aliases if a in KNOWN_ALIASES]:
+            rec('no reader accepts an input name that the request schema does not list [region: the recorded deprecated alias]', False,
+                {'aliases (recorded)': [a for a in aliases if a in KNOWN_ALIASES]}, finding='C19-deprecated-alias-not-in-schema')
+    except Exception as e:
+        log.note(f'alias scan skipped: {type(e).__name__} {str(e)[:100]}')
     # the schema is a function of the code, not of what was run before in the process: generate it again after real models have read
     # non-default inputs (list-valued and segment parameters included) and compare
     try:
@@ -157,6 +181,37 @@ def run_names(unit):
 
 
 # names accepted by classes the generator does not enumerate (surveyed on the pinned tree; recorded finding, see known_findings.json)
+KNOWN_ALIASES = ['Total Nonvertical Length']      # deprecated spelling that WellBores.read_parameters moves onto 'Nonvertical Length per Multilateral Section'
+
+
+class _RecordingDict(dict):
+    """an InputParameters dictionary that logs every key a reader asks for."""
+
+    def __init__(self, *a, **k):
+        super().__init__(*a, **k)
+        self.asked = set()
+
+    def __contains__(self, k):
+        self.asked.add(k)
+        return super().__contains__(k)
+
+    def __getitem__(self, k):
+        self.asked.add(k)
+        return super().__getitem__(k)
+
+    def get(self, k, *a):
+        self.asked.add(k)
+        return super().get(k, *a)
+
+    def pop(self, k, *a):
+        self.asked.add(k)
+        return super().pop(k, *a)
+
+    def setdefault(self, k, *a):
+        self.asked.add(k)
+        return super().setdefault(k, *a)
+
+
 KNOWN_MISSING = [
     'Absorption Chiller COP', 'Heat Pump COP', 'District Heating Demand Option', 'District Heating Demand File Name', 'District Heating Demand Data Time Resolution',
     'District Heating Demand Data Column Number', 'Temperature File Name', 'Temperature Data Column Number', 'Number of Housing Units', 'US Census Division',
